@@ -10,10 +10,12 @@ PROPS = {
         ],
         "suites": [
             {"name": "timeouts", "quick": 1500, "thorough": 30000},
+            {"name": "deadline", "quick": 600, "thorough": 20000},
         ],
         "required_tags": ["grpc_extract:valid-small", "grpc_extract:toolong", "grpc_extract:hours", "grpc_extract:mutated",
                           "connect_extract:valid-boundary", "connect_extract:toolong", "connect_extract:mutated",
-                          "grpc_encode:unit-switch", "connect_encode:boundary"],
+                          "grpc_encode:unit-switch", "connect_encode:boundary",
+                          "deadline:listed", "deadline:random", "deadline.pair:grpc>REST", "deadline.pair:rest>gRPC", "deadline.pair:connect-stream>gRPC", "deadline.pair:grpcweb>Connect"],
         "trivial_tags": ["absent", "empty"],
         "trusted_base": ["oracles pf/ff: strconv.ParseFloat / FormatFloat and float64 arithmetic of the REST (X-Server-Timeout) leg"],
         "assumptions": ["REST leg: float64 parse/format are oracles; the monitor allows 1 ns + 2^-50 relative slack on REST legs",
